@@ -7,14 +7,17 @@ the model over Qc / Gaussian Qc inside Coq, plus an exact per-system
 certificate that the model reaches the minimiser within n steps.  LSQR is
 compared with scipy.sparse.linalg.lsqr(iter_lim=k) (oracle) per iteration."""
 from . import c09_common as cc
+from . import c09_extra
 
 PID = "C09"
 PROPOSED_KNOWN = cc.PROPOSED_KNOWN
 
 
 def replay(rp):
+    if rp.get("extra"):
+        return c09_extra.replay(rp)
     return cc.replay(rp, cc.KINDS[PID])
 
 
 def main(tier):
-    return cc.report(PID, tier)
+    return cc.report(PID, tier, extra=c09_extra.extra)
